@@ -126,8 +126,9 @@ def strategy(cell):
 def bodies_case(draw, fa, fb):
     a = draw(body_case(fa, 0.1, 5.0))
     b = draw(body_case(fb, 0.1, 5.0))
-    a.pop("express_in", None)
-    b.pop("express_in", None)
+    for c_ in (a, b):
+        c_.pop("express_in", None)
+        c_.pop("update_pose", None)
     for c in (a, b):
         if "order" in c:
             c["order"] = min(c["order"], 1)
@@ -155,7 +156,12 @@ def bodies_case(draw, fa, fb):
         u = atoms.unit(draw(atoms.dir_random))
         f = draw(st.sampled_from([1.05, 1.5, 3.0]))
         b["p"] = (np.array(a["p"]) + f * (ra + rb) * u).tolist()
-    return {"a": a, "b": b, "mode": mode, "ym": [draw(st.sampled_from([1.0, 1e-2, 1e2, 3.0])) for _ in range(2)]}
+    c = draw(body_case("box", 0.1, 2.0))
+    c.pop("express_in", None)
+    c.pop("update_pose", None)
+    c["p"] = (np.array(b["p"]) + 0.4 * rb * atoms.unit(draw(atoms.dir_random))).tolist()
+    return {"a": a, "b": b, "c": c, "mode": mode, "history": draw(st.booleans()),
+            "ym": [draw(st.sampled_from([1.0, 1e-2, 1e2, 3.0])) for _ in range(2)]}
 
 
 def _body_radius(c):
@@ -216,7 +222,14 @@ def polygon_failures(poly, plane, t1, t2, L, tag):
         for k, t in enumerate((t1, t2)):
             b = bary(t, x)
             if b.min() < worst:
-                worst = float(b.min())
+                # sliver tetrahedra (near-medium cylinders) amplify rounding in
+                # the dimensionless coordinate by 1/height: a vertex within
+                # 1e-12*L of the face plane is inside
+                A = np.vstack([np.asarray(t, dtype=float).T, np.ones((1, 4))])
+                g = np.linalg.inv(A)[int(np.argmin(b)), :3]
+                dist = float(b.min()) / max(float(np.linalg.norm(g)), 1e-300)
+                if dist < -1e-12 * L:
+                    worst = float(b.min())
     if worst < -1e-9:
         fails.append(fail("outside-tetrahedron/" + tag,
                           "polygon vertex has barycentric coordinate %.3g (< -1e-9)" % worst, worst=worst))
@@ -359,6 +372,15 @@ def check_bodies(case):
             fails.append(fail("disjoint-but-contact", "bodies separated by a plane, intersection=%r |w12|=%.3g" % (
                 inter, float(np.linalg.norm(w12)))))
         return fails, {"labels": labels, "nontrivial": False}
+    if case.get("history") and "c" in case:
+        # the same objects in changing roles: (A,B), (B,C), then (A,B) again;
+        # B is body 2, then re-expressed as body 1, then body 2 again
+        b3 = call_lib(make_body, case["c"])
+        if not isinstance(b3, LibError):
+            labels.append("history")
+            h = call_lib(lambda: (find_contact_surface(b1, b2), find_contact_surface(b2, b3)))
+            if isinstance(h, LibError):
+                return fails + [fail("exception/history/" + h.type, repr(h))], {"labels": labels, "nontrivial": True}
     cs = call_lib(find_contact_surface, b1, b2)
     if isinstance(cs, LibError):
         return fails + [fail("exception/find_contact_surface/" + cs.type, repr(cs))], {"labels": labels, "nontrivial": True}
